@@ -225,7 +225,7 @@ class Probe:
         except M.Hang:
             self.F.append("hang: %s on %s did not return within %d s" % (label, short(shown), ALARM))
         except RecursionError as e:
-            self.F.append("foreign:RecursionError@%s: %s on %s" % (M.innermost_gfapy_frame(e), label, short(shown)))
+            self.F.append("foreign:RecursionError@%s: %s on %s" % (M.recursion_cycle_frame(e), label, short(shown)))
         except BaseException as e:   # noqa
             if isinstance(e, (KeyboardInterrupt, SystemExit)):
                 raise
